@@ -610,8 +610,9 @@ def r4b(cx):
                 continue
             n += 1
             cx.fn(b.fn)
-            ok = b.fn in ALIAS_INSPECTORS
-            cx.site('%s inspects Source::Alias at %s: %s' % (b.fn, b.loc(b.term(u)), ALIAS_INSPECTORS.get(b.fn, 'NOT REVIEWED')))
+            owner = re.sub(r'(::\{closure#\d+\})+$', '', b.fn)          # a closure belongs to the function that contains it
+            ok = owner in ALIAS_INSPECTORS
+            cx.site('%s inspects Source::Alias at %s: %s' % (b.fn, b.loc(b.term(u)), ALIAS_INSPECTORS.get(owner, 'NOT REVIEWED')))
             if not ok:
                 cx.violation(b.fn, 'direct-alias-test', 'the origin of a character is compared with an alias by looking at the innermost '
                              'Source::Alias only: a word that came from a nested substitution inside a blank-ending alias value is then taken '
